@@ -63,6 +63,10 @@ def expressions(case, world=None):
             out.append(['matrix', g.leaf(d)])
         if rng.random() < 0.08:
             out.append(['deriv', rng.randrange(len(ctx['vars'])), rng.randrange(len(ctx['vars']))])
+        if rng.random() < 0.12:
+            # floor / ceiling of a non-integer number as the exponent of a dimensional base
+            out.append(['pow', g.leaf(d), [rng.choice(['ceil', 'floor']),
+                                           ['qty', rng.choice(['2.5', '1.25', '0.5', '-1.5']), [[0, 'dimensionless', '1']]]]])
         if rng.random() < 0.05 and len(ctx['vars']) >= 2:
             out.append(['derivn', rng.randrange(len(ctx['vars'])), rng.randrange(len(ctx['vars'])), rng.choice([2, 3])])
         if rng.random() < 0.05:
